@@ -2,7 +2,7 @@
 \* target boundaries one unit beside it: overlaps of 1/1199 .. 1/1201 of a cell
 CONSTANTS H = 2400  SrcPts = {1200}  DstPts = {1199, 1201}  Profiles = {1, 2, 3, 4, 11, 12}  FuelChoices = {3}  SolveProfiles = {}
           Jitters = {"none"}  Ops = {"MakeUniform"}  SnapFlags = {}
-          SnapProfiles = {}  MaxLevel = 5
+          SnapProfiles = {}  MoveProfiles = {}  Geoms = {"cold"}  MaxLevel = 5
 INVARIANT EmitState
 INIT Init
 NEXT Next
